@@ -199,6 +199,24 @@ class QGen:
 
             def cnt():
                 el = self.any_elem()
+                r = R.random()
+                # also the number of OBJECTS in a sequence and the number of inner sequences in a sequence of sequences
+                if r < 0.2 and self.o.get("count_of_nested", True) and d > 1:
+                    try:
+                        s = self.seq(env, d - 1, T_seq(el), True)
+                        self.f("Count_of_nested")
+                        return self.call(s, "Count"), "int"
+                    except CannotGenerate:
+                        pass
+                elif r < 0.4:
+                    cls = self.any_obj_cls(env)
+                    if cls is not None:
+                        try:
+                            s = self.seq(env, d - 1, T_obj(cls), True)
+                            self.f("Count_of_objects")
+                            return self.call(s, "Count"), "int"
+                        except CannotGenerate:
+                            pass
                 s = self.seq(env, d - 1, el, True)
                 self.f("Count")
                 return self.call(s, "Count"), "int"
